@@ -166,6 +166,21 @@ KdfStep ==
                      keylen |-> call.a.size, keylen_mid |-> 0, keylen_hi |-> 0, callerkey |-> TRUE, out |-> m], "ret")
        /\ Same(<<ncalls, taint, res>>)
 
+\* ---- polyseed_encode ----
+EncodeStep ==
+    \/ /\ pc = "Encode"
+       /\ taint' = {"poly", "str"}
+       /\ IF G(call.a.lang).compose
+          THEN TryDep([e |-> "Nfc", impl |-> deps.nfc, in |-> EncodeDecomposed(SeedOf(call.a.h), call.a.lang, call.a.coin),
+                       out |-> PhraseComposed(G(call.a.lang), PhraseWords(SeedOf(call.a.h), call.a.coin)),
+                       full |-> Len(PhraseComposed(G(call.a.lang), PhraseWords(SeedOf(call.a.h), call.a.coin)))], "Encode.wipe")
+          ELSE pc' = "Encode.wipe" /\ Same(<<mask, deps, heap, blocks, call, hist, stuck>>)
+       /\ Same(<<ncalls, res>>)
+    \/ /\ pc = "Encode.wipe"                           \* MEMZERO_LOC(poly), MEMZERO_LOC(str_tmp)
+       /\ TryDep(StackWipe, IF Cardinality(taint) <= 1 THEN "ret" ELSE "Encode.wipe")
+       /\ taint' = taint \ {CHOOSE x \in taint : TRUE}
+       /\ Same(<<ncalls, res>>)
+
 \* ---- calls without internal steps ----
 SimpleStep ==
     /\ pc \in {"Inject", "Enable", "Store", "Feature"}
@@ -184,6 +199,8 @@ ImplResult ==
          [] op = "Keygen" -> [e |-> "Ret", op |-> op, residue |-> <<>>, keyintact |-> TRUE]
          [] op = "Crypt" -> [e |-> "Ret", op |-> op, residue |-> <<>>, intact |-> TRUE]
          [] op = "Store" -> [e |-> "Ret", op |-> op, residue |-> <<>>, img |-> StoreImage(SeedOf(call.a.h)), spill |-> FALSE]
+         [] op = "Encode" -> [e |-> "Ret", op |-> op, residue |-> <<>>, str |-> EncodeOut(SeedOf(call.a.h), call.a.lang, call.a.coin),
+                              ret |-> Len(EncodeOut(SeedOf(call.a.h), call.a.lang, call.a.coin)), terminated |-> TRUE, spill |-> FALSE]
          [] op = "Feature" -> [e |-> "Ret", op |-> op, residue |-> <<>>, hi |-> 0, lo |-> GetFeature(SeedOf(call.a.h).features, call.a.lo)]
          [] OTHER -> [e |-> "Ret", op |-> op, residue |-> <<>>]
 
@@ -197,7 +214,7 @@ IReturn ==
     /\ IReturnWith(ImplResult, RetEval(ImplResult))
     /\ Same(<<ncalls, taint, res>>)
 
-INext == IBegin \/ (~stuck /\ (CreateStep \/ DecodeStep \/ LoadStep \/ FreeStep \/ KdfStep \/ SimpleStep)) \/ IReturn
+INext == IBegin \/ (~stuck /\ (CreateStep \/ DecodeStep \/ LoadStep \/ FreeStep \/ KdfStep \/ EncodeStep \/ SimpleStep)) \/ IReturn
 
 IInit == Init /\ ncalls = 0 /\ hist = <<>> /\ pc = "idle" /\ taint = {} /\ res = StOK /\ stuck = FALSE
 ISpec == IInit /\ [][INext]_ivars
